@@ -280,6 +280,9 @@ macro_rules! impl_div_rounded_decimal_and_int {
             type Output = Self;
 
             fn div_rounded(self, rhs: $t, n_frac_digits: u8) -> Self::Output {
+                if n_frac_digits > MAX_N_FRAC_DIGITS {
+                    panic!("{}", DecimalError::MaxNFracDigitsExceeded);
+                }
                 if rhs == 0 {
                     panic!("{}", DecimalError::DivisionByZero);
                 }
@@ -343,6 +346,9 @@ macro_rules! impl_div_rounded_decimal_and_int {
             type Output = Decimal;
 
             fn div_rounded(self, rhs: Decimal, n_frac_digits: u8) -> Self::Output {
+                if n_frac_digits > MAX_N_FRAC_DIGITS {
+                    panic!("{}", DecimalError::MaxNFracDigitsExceeded);
+                }
                 if rhs.eq_zero() {
                     panic!("{}", DecimalError::DivisionByZero);
                 }
